@@ -164,6 +164,9 @@ func checkPair(p1, p2 orb.Point, nz *noiser) error {
 	if math.Float64bits(e12) != math.Float64bits(e21) {
 		return fmt.Errorf("Distance not symmetric: d(%v,%v)=%v but reversed %v", p1, p2, e12, e21)
 	}
+	if p1 == p2 && (h12 != 0 || e12 != 0) { // every intermediate is exactly 0: no tolerance
+		return fmt.Errorf("distance from %v to itself: haversine %v, equirectangular %v, want exactly 0", p1, h12, e12)
+	}
 	m := modelDist(p1, p2)
 	tol := havTol(m)
 	if math.Abs(h12-m) > tol {
@@ -250,7 +253,11 @@ func checkAlong(ls orb.LineString, d float64, nz *noiser) error {
 		return fmt.Errorf("harness: empty line is outside the domain (documented panic)")
 	}
 	nz.call()
-	got, _ := geo.PointAtDistanceAlongLine(append(orb.LineString(nil), ls...), d)
+	arg := orb.LineString(withSpare(ls))
+	got, _ := geo.PointAtDistanceAlongLine(arg, d)
+	if err := untouched(arg, ls, "PointAtDistanceAlongLine"); err != nil {
+		return err
+	}
 	last := ls[len(ls)-1]
 	total := 0.0
 	var want vec
@@ -433,6 +440,11 @@ func checkRing(verts []orb.Point, mode string, nz *noiser) error {
 		return fmt.Errorf("SignedArea(%v) = %v", base, s0)
 	}
 	for rot := 0; rot < n; rot++ {
+		// large rings (the rare class of the generator): the rotations next to the ends, the middle
+		// and every n/12-th one, so that the check stays O(n)
+		if n > 16 && !(rot < 3 || rot > n-4 || rot == n/2 || rot%(n/12) == 0) {
+			continue
+		}
 		for k := 0; k < 4; k++ {
 			rev, closed := k&1 == 1, k&2 == 2
 			r := spelling(verts, rot, rev, closed)
